@@ -93,7 +93,8 @@ def r161(facts, res):
     res.floor(R, 'cell store sites', len(stores), 5)
     store_blocks = {bb for bb, _ in stores}
     decs = [(bb, t) for bb, t in b.calls_named('decode')
-            if b.op_root(t['args'][0], through=Body.THROUGH + ('index', 'index_mut'))[0] == cells]
+            if b.op_root(t['args'][0], through=Body.THROUGH + ('index', 'index_mut'))[0] == cells
+            or b.op_root(t['args'][0], through=Body.THROUGH + ('index', 'index_mut', 'iter', 'enumerate', 'next', 'into_iter', 'copied', 'cloned', 'unwrap'), stop_named=False)[0] == cells]
     nset = 0
     for name, vl in sorted(vobs.items()):
         sets = []
@@ -332,26 +333,28 @@ def r163(facts, res, ctx):
     R = 'R16.3'
     b, views, cells, store_blocks, decs = ctx
     edges = b.calls_named('edges')
-    if len(edges) != 1:
-        res.lost(R, 'expected one call of StateGraph::edges in StateTable::new, found %d' % len(edges))
+    if not edges:
+        res.lost(R, 'no call of StateGraph::edges in StateTable::new')
         return
     loops = b.loops()
     headers = set(loops)
-    # the iterator's next() whose receiver derives from edges()
-    nxt = None
+    # the iterators' next() whose receiver derives from edges() (one loop over the edges, or one per kind of edge)
+    nxts = []
     for bb, t in b.calls_named('next'):
         st = callee_of(t).get('self_ty') or ''
         if 'hash::map::Iter<' in st and 'Symbol' in st:
-            nxt = (bb, t)
-    if nxt is None:
+            nxts.append((bb, t))
+    if not nxts:
         res.lost(R, 'no iteration over the edge map found')
         return
-    nb, nt = nxt
-    w = Walker(b, facts, max_paths=4096)
-    ps = w.run(nb, stop=lambda x: x in headers and x != nb)
-    if w.overflow:
-        res.lost(R, 'path bound exceeded')
-        return
+    nb = nxts[0][0]
+    ps = []
+    for nb_, nt in nxts:
+        w = Walker(b, facts, max_paths=4096)
+        ps += w.run(nb_, stop=lambda x, nb_=nb_: x in headers and x != nb_)
+        if w.overflow:
+            res.lost(R, 'path bound exceeded')
+            return
     item = lambda t: term_has(t, lambda x: isinstance(x, tuple) and x[:1] == ('call',) and x[1].endswith('::next') and len(x) > 3)
     gotos = views['gotos'][0]
     gl = None
